@@ -39,6 +39,7 @@ var props = map[string]*propInfo{
 	"C06": {},
 	"C07": {},
 	"C09": {},
+	"C10": {},
 }
 
 func loadInfo(bin, id string, p *propInfo) error {
